@@ -290,6 +290,13 @@ def cond_key(repo, fn, envs, cond, env=None):
         inl = _inline_closure(cond, env)
         if inl is not None:
             return cond_key(repo, fn, envs, inl[0], inl[1])
+    if cond["k"] == "Let" and cond["pat"].get("k") == "PSlice" and all(x.get("k") in ("PIdent", "PWild") and not x.get("sub") for x in cond["pat"].get("elems", [])):
+        # `if let [a, b] = v.as_slice()` (or `v[..]`) tests the length and nothing else
+        e = cond["expr"]
+        while e["k"] in ("Ref", "Paren") or (e["k"] == "MethodCall" and e["method"] in ("as_slice", "as_ref", "deref") and not e["args"]) or (e["k"] == "Index" and e["index"].get("k") == "Range" and e["index"].get("start") is None and e["index"].get("end") is None):
+            e = e.get("expr") or e.get("recv") or e.get("base")
+        n = len(cond["pat"]["elems"])
+        return f"({render(e, env or envs.get(id(cond['expr'])))}.len() == '{n}')"
     if cond["k"] == "Let":
         pat = re.sub(r"\b[a-z_][a-z0-9_]*\b(?!::|\{|\()", "_", "".join(repo.text(fn.file, cond["pat"]).split()))
         return f"let {pat} = " + render(cond["expr"], env or envs.get(id(cond["expr"])))
